@@ -392,8 +392,9 @@ def run(prop_id, prop, tier, seed, replay, only, scratch, t0):
         log("NOTE " + line)
     if real:
         seen = set()
-        for dst, sig, msg, sh in real:
-            log("FAILURE part=%s shard=%d sig=%s: %s" % (sh.part["name"], sh.idx, sig, msg[:1500]))
+        for k, (dst, sig, msg, sh) in enumerate(real):
+            if k < 3:
+                log("FAILURE part=%s shard=%d sig=%s: %s" % (sh.part["name"], sh.idx, sig, msg[:700]))
             if dst not in seen:
                 log("VIOLATION property=%s replay=%s" % (prop_id, dst))
                 seen.add(dst)
